@@ -111,4 +111,85 @@ theorem del_absent {α : Type} (ms : KMap α) (m : Bytes) (hn : ms.get m = none)
       simp [KMap.del, ha, ih hn]
 
 
+/-! ### insertion sort orders its input when the comparator is a strict weak order -/
+
+/-- no element is strictly below an earlier one -/
+def SortedBy {α : Type} (lt : α → α → Bool) (l : List α) : Prop := l.Pairwise fun x y => lt y x = false
+
+theorem mem_takeWhile_pred {α : Type} (P : α → Bool) : ∀ (q : List α) (y : α), y ∈ q.takeWhile P → P y = true := by
+  intro q
+  induction q with
+  | nil => intro y h; cases h
+  | cons a r ih =>
+    intro y h
+    simp only [List.takeWhile] at h
+    split at h
+    · rename_i hp
+      simp only [List.mem_cons] at h
+      rcases h with rfl | h
+      · exact hp
+      · exact ih y h
+    · cases h
+
+theorem dropWhile_all_le {α : Type} (lt : α → α → Bool) (x : α)
+    (htrans : ∀ a c d, lt c a = false → lt d c = false → lt d a = false) :
+    ∀ (q : List α), q.Pairwise (fun a c => lt a c = false) → ∀ z ∈ q.dropWhile (fun y => lt x y), lt x z = false := by
+  intro q
+  induction q with
+  | nil => intro _ z h; cases h
+  | cons a r ih =>
+    intro hp z hz
+    rw [List.pairwise_cons] at hp
+    simp only [List.dropWhile] at hz
+    split at hz
+    · exact ih hp.2 z hz
+    · rename_i hxa
+      simp only [List.mem_cons] at hz
+      rcases hz with rfl | hz
+      · simpa using hxa
+      · exact htrans z a x (hp.1 z hz) (by simpa using hxa)
+
+theorem insertRight_sorted {α : Type} (lt : α → α → Bool) (x : α) (p : List α)
+    (hasym : ∀ a c, lt a c = true → lt c a = false)
+    (htrans : ∀ a c d, lt c a = false → lt d c = false → lt d a = false)
+    (hs : SortedBy lt p) : SortedBy lt (insertRight lt x p) := by
+  unfold insertRight SortedBy at *
+  have hsplit : p = (p.reverse.dropWhile fun y => lt x y).reverse ++ (p.reverse.takeWhile fun y => lt x y).reverse := by
+    have := List.takeWhile_append_dropWhile (p := fun y => lt x y) (l := p.reverse)
+    have h2 := congrArg List.reverse this
+    simp only [List.reverse_append, List.reverse_reverse] at h2
+    exact h2.symm
+  have hrev : p.reverse.Pairwise (fun a c => lt a c = false) := by
+    rw [List.pairwise_reverse]; exact hs
+  have hfront : ∀ z ∈ (p.reverse.dropWhile fun y => lt x y).reverse, lt x z = false := by
+    intro z hz
+    exact dropWhile_all_le lt x htrans p.reverse hrev z (by simpa using hz)
+  have hback : ∀ y ∈ (p.reverse.takeWhile fun y => lt x y).reverse, lt x y = true := by
+    intro y hy
+    exact mem_takeWhile_pred (fun y => lt x y) p.reverse y (by simpa using hy)
+  generalize (p.reverse.dropWhile fun y => lt x y).reverse = front at *
+  generalize (p.reverse.takeWhile fun y => lt x y).reverse = back at *
+  rw [hsplit] at hs
+  rw [List.pairwise_append] at hs
+  obtain ⟨hfs, hbs, hfb⟩ := hs
+  simp only [List.append_assoc, List.singleton_append]
+  rw [List.pairwise_append]
+  refine ⟨hfs, ?_, ?_⟩
+  · rw [List.pairwise_cons]
+    exact ⟨fun y hy => hasym x y (hback y hy), hbs⟩
+  · intro a ha c hc
+    simp only [List.mem_cons] at hc
+    rcases hc with rfl | hc
+    · exact hfront a ha
+    · exact hfb a ha c hc
+
+theorem foldl_insertRight_sorted {α : Type} (lt : α → α → Bool)
+    (hasym : ∀ a c, lt a c = true → lt c a = false)
+    (htrans : ∀ a c d, lt c a = false → lt d c = false → lt d a = false) :
+    ∀ (l acc : List α), SortedBy lt acc → SortedBy lt (l.foldl (fun p x => insertRight lt x p) acc) := by
+  intro l
+  induction l with
+  | nil => intro acc h; exact h
+  | cons x r ih => intro acc h; exact ih _ (insertRight_sorted lt x acc hasym htrans h)
+
 end Sugar
